@@ -319,18 +319,7 @@ func c06r3(c *Ctx) {
 		}
 		c.check(ok, R, f.Key+": bucket open error propagated", f.Pos(), "errs <- err … return", "NewHStore drops the error of Bucket.open: a bucket with bad data is served")
 	}
-	if f := c.fn(R, "loghub.ErrorLogHub.Log"); f != nil {
-		info := f.Info()
-		ok := false
-		for _, call := range f.CallsTo("os.Exit") {
-			for _, a := range f.GuardsAt(call.Expr) {
-				if prog.AtomCmp(a, token.EQL, func(e ast.Expr) bool { return true }, prog.IsConstNamed(info, "loghub.FATAL")) {
-					ok = true
-				}
-			}
-		}
-		c.check(ok, R, f.Key+": FATAL exits the process", f.Pos(), "os.Exit under level == FATAL", "logger.Fatalf no longer terminates the process: every fail-stop in the store becomes a continue")
-	}
+	// the fail-stop property of logger.Fatalf itself is rule C06.R8
 }
 
 func c06r4(c *Ctx) {
